@@ -23,7 +23,7 @@ VARIABLES plan,      \* episodes still to run: <<[query, calls]>>, a call is [mo
           calls,     \* calls still to make in the current episode
           cur,       \* the call in progress: [mode, got, fired] or NoCall
           tainted,   \* the current episode had a timeout: its later calls are unconstrained
-          reports,   \* one entry per finished call: [ep, mode, rep, want, free, ok]
+          reports,   \* one entry per finished call: [ep, mode, rep, want, free, armed, ok]
           epno
 
 sesvars == <<plan, calls, cur, tainted, reports, epno>>
@@ -71,7 +71,7 @@ EpisodeDone ==
 StartCall ==
     /\ phase = "idle" /\ calls # <<>> /\ cur = NoCall
     /\ LET c == Head(calls) IN
-       /\ cur' = [mode |-> c.mode, got |-> <<>>, fired |-> FALSE]
+       /\ cur' = [mode |-> c.mode, got |-> <<>>, fired |-> (c.mode # "next" /\ c.fire > 0)]
        /\ stop' = IF c.mode = "next" THEN stop ELSE FALSE          \* start_query_timer() clears the flag
        /\ fireAt' = IF c.mode = "next" THEN 0 ELSE c.fire
        /\ crSeen' = 0
@@ -86,6 +86,7 @@ StartCall ==
 Finish(rep, want, okv) ==
     /\ reports' = Append(reports, [ep |-> epno, mode |-> cur.mode, rep |-> rep, want |-> want,
                                    free |-> tainted,            \* after a timeout of this query: unconstrained
+                                   armed |-> cur.fired,         \* the call's own (virtual) timer was set to fire
                                    ok |-> tainted \/ okv])
     /\ cur' = NoCall
     /\ phase' = "idle"
@@ -134,5 +135,8 @@ SessionNext ==
 (* next answer, "no more", all remaining answers -- or a timeout, and a timeout  *)
 (* only when the call's own timer fired                                          *)
 EachRunIsItsOwnSLD == \A i \in DOMAIN reports : reports[i].ok
+(* C23: a call whose own timer does not fire never reports a timeout -- whatever happened before, *)
+(* also on a query one of whose earlier calls timed out (start_query_timer clears the flag)         *)
+NoSpuriousTimeout == \A i \in DOMAIN reports : reports[i].rep.timeout => reports[i].armed
 
 =============================================================================
